@@ -442,6 +442,7 @@ theorem ref_cmd (fuel : Nat) (ih : Ref fuel) :
     | specialColon => exact relS_finish' _ st0 _ _ rfl
     | regularTrue => exact relS_finish' _ st0 _ _ rfl
     | notFound => exact relS_finish' _ st0 _ _ rfl
+    | status n => exact relS_finish' _ st0 _ _ rfl
     | function body =>
       simp only
       have b1 := (bal fuel).cmd s body
